@@ -154,6 +154,36 @@ vf_rb_rpos_norm(const r_buf_t *r, const r_buf_rpos_t *rp) {
 	    (rp->iov_off == 0 || rp->iov_off < r->iov[rp->iov_index].iov_len));
 }
 
+/* n is the total length of the first m blocks of the stream from the cursor, for some m
+ * (the cursor's block counts from its offset): what "in order, without skipping" means for
+ * a total of whole blocks */
+static inline int
+vf_rb_is_prefix(const r_buf_t *r, const r_buf_rpos_t *rp, size_t n) {
+	size_t i, acc = 0;
+	const int prev = (rp->round_num != r->round_num);
+	const size_t last = prev ? r->iov_index_max : r->iov_index;
+
+	if (n == 0)
+		return (1);
+	for (i = 0; i < VF_RB_IOVN; i ++) { /* blocks of the cursor's round */
+		if (i < rp->iov_index || i > last)
+			continue;
+		acc += r->iov[i].iov_len - ((i == rp->iov_index) ? rp->iov_off : 0);
+		if (acc == n)
+			return (1);
+	}
+	if (!prev)
+		return (0);
+	for (i = 0; i < VF_RB_IOVN; i ++) { /* then the blocks of the current round */
+		if (i > r->iov_index)
+			continue;
+		acc += r->iov[i].iov_len;
+		if (acc == n)
+			return (1);
+	}
+	return (0);
+}
+
 /* r_buf_data_get: iovecs inside the ring, in stream order from the cursor, sum of the
  * lengths == *data_size_ret <= min(data_size, available); everything when asked for more
  * than is available and the caller's array is long enough */
@@ -178,6 +208,8 @@ vf_rb_post_data_get(const r_buf_t *r, const r_buf_rpos_t *rp, int was_valid,
 		return (0);
 	if (ret > 0 && iov[0].iov_base != r->iov[rp->iov_index].iov_base + rp->iov_off)
 		return (0); /* starts exactly at the cursor */
+	if (!vf_rb_is_prefix(r, rp, sum))
+		return (0); /* whole blocks, consecutive from the cursor: none skipped */
 	if (data_size > avail && iov_cnt > 2 * VF_RB_IOVN && avail != 0)
 		return (sum == avail); /* a full read returns what avail_size promised */
 	return (1);
@@ -304,7 +336,9 @@ __CPROVER_assigns(*rpos)
 /* stream order, one step: the cursor stays usable and has moved forward by exactly the
  * consumed amount (no repetition, nothing skipped) */
 __CPROVER_ensures(vf_rb_rpos_wf(r_buf, rpos) && vf_rb_rpos_norm(r_buf, rpos))
+#ifndef VF_RB_INC_NO_AMOUNT
 __CPROVER_ensures(vf_rb_avail(r_buf, rpos) == vf_rb_old_avail - data_size)
+#endif
 ;
 
 int
